@@ -20,8 +20,13 @@ package ggql
 //@ spec scanM(p *parser) int = 2*(#N - #rd) + ite(p.onDeck != 0, 1, 0) + ite(p.eof, 0, 1)
 //@ spec scanOk(p *parser) bool = p != nil && #rd <= #N
 
+//@ -- position accounting (C07 locations): the first byte read starts at line 1 column 1; a line feed read from the input
+//@ -- moves to column 1 of the next line, every other byte moves one column right, nothing else moves the position
+//@ spec startLine(l int) int = ite(l == 0, 1, l)
+//@ spec startCol(l int, c int) int = ite(l == 0, 1, c)
 //@ func (*parser).readByte
 //@   props C03
+//@   check panic {C03}
 //@   requires scanOk(p)
 //@   ensures[ok] scanOk(p)
 //@   ensures[no-growth] scanM(p) <= old(scanM(p))
@@ -32,6 +37,10 @@ package ggql
 //@   ensures[lookahead-empty] p.onDeck == 0
 //@   ensures[err-zero] err != nil ==> b == 0
 //@   ensures[from-lookahead] old(p.onDeck) != 0 ==> b == old(p.onDeck) && err == nil && #rd == old(#rd) && p.eof == old(p.eof) && p.line == old(p.line) && p.col == old(p.col)
+//@   ensures[newline-advances-line]{C07} old(p.onDeck) == 0 && err == nil && #rd == old(#rd) + 1 && b == 10 && !p.eof ==> p.line == startLine(old(p.line)) + 1 && p.col == 1
+//@   ensures[other-byte-advances-column]{C07} old(p.onDeck) == 0 && err == nil && #rd == old(#rd) + 1 && !(b == 10 && !p.eof) ==> p.line == startLine(old(p.line)) && p.col == startCol(old(p.line), old(p.col)) + 1
+//@   ensures[no-byte-keeps-position]{C07} old(p.onDeck) == 0 && !old(p.eof) && #rd == old(#rd) ==> p.line == startLine(old(p.line)) && p.col == startCol(old(p.line), old(p.col))
+//@   ensures[at-most-one-byte]{C07} #rd <= old(#rd) + 1
 //@   assigns fresh, p.onDeck, p.eof, p.line, p.col, #rd
 //@   loop 0: invariant[ok] scanOk(p) && p.onDeck == 0 && !p.eof && #rd == old(#rd)
 //@           invariant[eof-discovered] p.eof && !old(p.eof) ==> scanM(p) < old(scanM(p))
@@ -39,6 +48,7 @@ package ggql
 
 //@ func (*parser).putBack
 //@   props C03
+//@   check panic {C03}
 //@   requires scanOk(p)
 //@   requires[lookahead-free] p.onDeck == 0
 //@   ensures[ok] scanOk(p)
@@ -48,6 +58,7 @@ package ggql
 
 //@ func (*parser).skipBOM
 //@   props C03
+//@   check panic {C03}
 //@   requires scanOk(p)
 //@   ensures[ok] scanOk(p)
 //@   ensures[no-growth] scanM(p) <= old(scanM(p))
@@ -59,6 +70,7 @@ package ggql
 //@ -- skipSpace leaves the byte it returns in the lookahead (unless it is 0: end of input or a NUL byte)
 //@ func (*parser).skipSpace
 //@   props C03
+//@   check panic {C03}
 //@   requires scanOk(p)
 //@   ensures[ok] scanOk(p)
 //@   ensures[no-growth] scanM(p) <= old(scanM(p))
@@ -80,6 +92,7 @@ package ggql
 
 //@ func (*parser).readToken
 //@   props C03
+//@   check panic {C03}
 //@   requires scanOk(p)
 //@   results tok, err
 //@   ensures[ok] scanOk(p)
@@ -96,6 +109,7 @@ package ggql
 
 //@ func (*parser).readNumberToken
 //@   props C03
+//@   check panic {C03}
 //@   requires scanOk(p)
 //@   results tok, err
 //@   ensures[ok] scanOk(p)
